@@ -145,6 +145,9 @@ FIXED = [
     "model F2 Real x; Real a; Real b; equation der(x) = a - (b - (a - b)); a = 3 * (b + 1) * (b - 1); b = 1 - 2 - 3; end F2;",
     # symbols with two classification prefixes: a differentiated input, an output that is a state, a differentiated parameter
     "model F3 input Real u; output Real yo; parameter Real k = 2; Real x; equation der(x) = u - x; der(u) = k; der(yo) = x; end F3;",
+    # variables whose names look like names a printer might invent for derivatives: a state x beside x_dot / xdot / der_x / dx
+    "model F4 Real x; Real x_dot; Real xdot; equation der(x) = x_dot + 2 * xdot; x_dot = 3; xdot = 5; end F4;",
+    "model F5 Real x; Real x_dot; Real der_x; Real dx; equation der(x) = -x; der(x_dot) = x + der_x; der_x = 2; dx = der(x) + 1; end F5;",
 ]
 
 
@@ -184,7 +187,7 @@ def main():
                 break
     if payload.get("mode") == "bounded":
         print(json.dumps({"performed": True, "cases": n, "distinct_nontrivial": n, "failures": failures,
-                          "rule": "fixed precedence-critical models plus random nested expressions (seed %d, depth 3; + - * / ^ unary minus sin der): the generated module is executed with a stubbed OdeModel and every equation is compared numerically with lhs - rhs of an independent flatten(); state/parameter/constant/input/output lists compared with the prefixes" % seed,
+                          "rule": "fixed precedence-critical models, models whose variables are named like derivatives (x_dot, xdot, der_x, dx), plus random nested expressions (seed %d, depth 3; + - * / ^ unary minus sin der): the generated module is executed with a stubbed OdeModel and every equation is compared numerically with lhs - rhs of an independent flatten(); state/parameter/constant/input/output lists compared with the prefixes" % seed,
                           "bound": "%d models" % n}))
     else:
         f = failures[0] if failures else None
